@@ -48,6 +48,7 @@ class VariableCacheProvider:
     def __init__(self):
         """Create new cache."""
         self.__cache = {}
+        self.__held = []
 
     def check_id(self, identity_hash_id) -> Optional[str]:
         """
@@ -59,6 +60,17 @@ class VariableCacheProvider:
         if identity_hash_id in self.__cache:
             return self.__cache[identity_hash_id]
         return None
+
+    def hold(self, value):
+        """
+        Keep a processed value alive for as long as this cache is used.
+
+        The cache is keyed by the identity of the values, if a value (e.g. the result of a watch) was released
+        then its identity could be reused by the next value, which would then wrongly be seen as the same object.
+
+        :param value: the value to keep a reference to
+        """
+        self.__held.append(value)
 
     @property
     def size(self):
@@ -128,6 +140,7 @@ class VariableSetProcessor(Collector):
         :return:
         """
         identity_hash_id = str(id(value))
+        self.__var_cache.hold(value)
         check_id = self.__var_cache.check_id(identity_hash_id)
         if check_id is not None:
             # this means the watch result is already in the var_lookup
